@@ -39,6 +39,22 @@ R = {
  "C17-2": (True, "kad_store::MemoryStore::remove_local_provider (Verus): what stays under the key is the old list without one entry, in the same order, still sorted — *missed at first* (function not under contract) → brought under contract"),
  "C04-3": (True, "substream_sink::Substream::poll_flush (Verus): Ready(Ok) => nothing parked and nothing queued (first run: undecided, the seed calls VecDeque::is_empty which vstd does not specify → assumed contract added); also the bounded Kani harness c04_sink_flush_complete_means_drained"),
  "C04-4": (True, "substream_sink::Substream::start_send (Verus): refused exactly when the item length differs from the fixed frame size"),
+ "C01-3": (True, "noise_auth::parse_and_verify_peer_id (Verus iff-contract: Ok only if a signature is present and verifies) and the bounded Kani cross-check c01_parse_and_verify_contract"),
+ "C01-4": (True, "crypto::c01_remote_key_dispatch (Kani, natively replayed): only an Ed25519 key of exactly 32 data bytes is accepted"),
+ "C05-3": (True, "peer_state::c05_established_s4 / _s6 (Kani per-shape harnesses of PeerState::on_connection_established): an established connection whose id equals the dial record's id consumes the dial record, whatever its address"),
+ "C05-4": (True, "peer_state::PeerState::on_dial_failure (Verus): when the secondary dial of a connected peer fails, the state is Connected with the SAME primary record and no secondary"),
+ "C06-3": (True, "limits::ConnectionLimits::accept_established_connection (Verus): an accepted outbound connection is counted iff an outbound limit is configured"),
+ "C06-4": (True, "limits::ConnectionLimits::can_accept_connection (Verus): refused iff the counted set has reached the configured maximum — including a maximum of 0"),
+ "C08-3": (True, "transport_service::TransportService::on_connection_closed (Verus): primary closed while a secondary exists => the secondary is promoted and no event is emitted — first run undecided (the seed calls ConnectionHandle::is_active, missing from the opaque prelude type → added as a nondeterministic method)"),
+ "C08-4": (True, "transport_service::TransportService::on_connection_established (Verus): a second connection is stored as secondary and the primary is kept — first run undecided for the same reason as C08-3"),
+ "C13-3": (True, "reqresp::RequestResponseProtocol::on_send_request (Verus): a refused request leaves all three registries unchanged (the seed parks the request before the dial and leaves it there on failure)"),
+ "C13-4": (True, "reqresp::RequestResponseProtocol::on_send_request (Verus): Ok => the request is registered (pending_outbound / peer context / timeout) — first run undecided (the seed names SubstreamError::ConnectionClosed, missing from the reduced error type → variant added)"),
+ "C14-3": (True, "kbucket::RoutingTable::on_connection_established (Verus): a stored peer is Connected afterwards for either endpoint direction"),
+ "C14-4": (False, "UNDECIDED, not missed: the seed merges the two loops of KBucket::entry into one; the loop invariants of the unit are anchored by loop ordinal, so extraction reports `anchor lost: fn entry has 1 loops, contract names loop 1` and the check exits 2 (by design: a lost anchor is never turned into an alarm). The bounded Kani harness c14_bucket_entry_full_3sym (thorough tier) still decides the merged version"),
+ "C16-3": (True, "kad_dispatch::Kademlia::open_substream_or_dial (Verus): parked BEHIND everything already parked"),
+ "C16-4": (True, "target_peers::c16_new_quorum_empty_targets (Kani): required acknowledgements >= 1 for an empty target set, every quorum"),
+ "C18-3": (True, "peer_id::c18_from_multihash_agrees_with_reference and c18_from_multihash_contract (Kani, natively replayed)"),
+ "C18-4": (True, "peer_id::PeerId::from_bytes (Verus): parsed only from the COMPLETE encoding — caught after from_bytes was brought under contract with both dependency entry points declared; before that: not decided"),
  "C20-2": (False, "config constant MAX_BATCH_SIZE: the relation between batch size and the protobuf-encoded message size (send_response, async) is not_decided for C20"),
 }
 for k, (det, why) in R.items():
